@@ -249,7 +249,7 @@ CLAIMS['C20'] = {
             'exactly when there is none) and keeps the queue length; an EMPTY queue counts as unpatched (-32601); the only '
             'exceptions that escape a request are those a patch callback raised. Frame: container contents only, no '
             'attribute of any pre-existing object.',
-    'note': 'under contract for UNPATCHED endpoints only: _on_request (exactly one pass-through call with the same arguments and its answer returned unchanged, or ConnectionRefusedError, as configured; an endpoint with an empty patch map counts as unpatched). remove() un-registers exactly the given method (or endpoint), hands back what it removed, raises KeyError exactly when there is nothing to remove and leaves every other queue untouched. Not under contract: reset(), the patched branches of _on_request (pass-through / refusal of unpatched endpoints, '
+    'note': 'BOUNDED stand-in mocker_histories (16 732 histories of up to 4 operations on the real mocker vs. a reference model of the statement: round-robin, once, ids, recorded call counts, batches, unpatched endpoint; never counted as proved) covers the composition of the per-call contracts and the patched branches of _on_request; under contract for UNPATCHED endpoints only: _on_request (exactly one pass-through call with the same arguments and its answer returned unchanged, or ConnectionRefusedError, as configured; an endpoint with an empty patch map counts as unpatched). remove() un-registers exactly the given method (or endpoint), hands back what it removed, raises KeyError exactly when there is nothing to remove and leaves every other queue untouched. Not under contract: reset(), the patched branches of _on_request (pass-through / refusal of unpatched endpoints, '
             'element-wise batches), start/stop patching. Assumed: the mocking package (MagicMock returns a new callable mock; '
             'calling it only records), callbacks may raise; representation invariant of the mocker (the outer map, the '
             'per-endpoint maps and the call records are distinct objects; stored queues are non-empty lists of well-formed '
